@@ -65,6 +65,35 @@ def generate(rng, tier):
         S(tx, rng.randrange(3), rng.choice(G.LEGACY_FLAGS), ("ab+" + d) if d else "ab")
         S(tx, rng.randrange(3), rng.choice(G.LEGACY_FLAGS), d)
         R(("ab+" + d + "+ab") if d else "abab")
+    # 4b. audit classes, deterministic.  32-bit fields on the boundaries on the signed and on the other inputs (sequence
+    # handling differs per flag), distinct outputs, outpoint index != position, duplicate outpoints: every flag x every index
+    for t in G.EXTREME_TXS + [G.LONG_OUT_TX]:
+        for fl in G.LEGACY_FLAGS + G.OTHER_FLAGS:
+            for idx in range(4):
+                S(t, idx, fl, "ab" + G.P2PKH, G.VALUES[idx])
+    for t in G.SHAPE_TXS:
+        for fl in G.LEGACY_FLAGS:
+            for idx in range(3):
+                S(t, idx, fl, "76ab", 1)
+    # separators in every neighbourhood: removal (script.rm_codesep) and inside the preimage (core ones under every flag)
+    for k, sc in enumerate(G.SEP_SCRIPTS):
+        R(sc)
+        for fl in (G.LEGACY_FLAGS if sc in G.CORE_SEP else [G.LEGACY_FLAGS[k % 6], G.LEGACY_FLAGS[(k + 3) % 6]]):
+            S(G.EXTREME_TXS[k % 3], k % 3, fl, sc, 1000 + k)
+    # values are not part of this preimage: the answer must not depend on them, whatever their size
+    for fl in G.LEGACY_FLAGS:
+        for v in G.VALUES[:4]:
+            S(G.EXTREME_TXS[2], 2, fl, "ab51", v)
+    # subscript lengths on the compact-size thresholds, with and without a leading separator: every flag
+    for n in G.SUB_LENS:
+        for k, fl in enumerate(G.LEGACY_FLAGS):
+            if n >= 65021 and tier == "quick" and k % 3 != (n % 3):
+                continue
+            body = "4d%s+l:%d:%d" % ((n - 3).to_bytes(2, "little").hex(), n, n - 3) if 259 <= n <= 65538 else G.sized_script(rng, n)
+            S(G.EXTREME_TXS[1], k % 3, fl, body if k % 2 else "ab+" + body, 0)
+    # 253 inputs / 256 outputs
+    for (fl, idx) in [(1, 252), (3, 252), (0x81, 0), (0x83, 252), (2, 1), (3, 255)]:
+        cases.append(("tx.sighash", [G.BIG_COUNT_TX, str(idx), str(fl), "abac", "0"]))
     # 5. huge indices
     for idx in [3, 255, 2 ** 32, 2 ** 64 - 1]:
         S(tx, idx, rng.choice(G.LEGACY_FLAGS), G.P2PKH)
